@@ -1,4 +1,6 @@
 import PK.Properties.C05
+import PK.Properties.C05Rules
+import PK.Properties.C05Omaha
 #print axioms PK.C05_combos
 #print axioms PK.C05_combos_complete
 #print axioms PK.C05_best_of
@@ -7,3 +9,11 @@ import PK.Properties.C05
 #print axioms PK.C05_omaha
 #print axioms PK.C05_badugi
 #print axioms PK.C05_or_none
+#print axioms PK.best_by_rules
+#print axioms PK.C05_best_by_rules
+#print axioms PK.C05_short_deck_by_rules
+#print axioms PK.C05_razz_by_rules
+#print axioms PK.C05_eight_by_rules
+#print axioms PK.omaha_by_rules
+#print axioms PK.C05_omaha_by_rules
+#print axioms PK.C05_omaha8_by_rules
